@@ -5,6 +5,8 @@ import (
 	"go/ast"
 	"go/token"
 	"go/types"
+	"regexp"
+	"strconv"
 	"strings"
 
 	"golang.org/x/tools/go/ssa"
@@ -96,7 +98,8 @@ func init() {
 					}
 					res.obligations++
 					oname := fmt.Sprintf("%s/badnode-alloc@%s", name, "handler")
-					if strings.Contains(name, ".handleParse") && strings.HasSuffix(name, "Error") {
+					isHandler := func(n string) bool { return strings.Contains(n, ".handleParse") && strings.HasSuffix(n, "Error") }
+					if isHandler(name) || (g.cs.Funcs[name] == nil && g.allCallersAre(fn, isHandler, 0)) {
 						res.discharged++
 						if len(res.samples) < 4 {
 							res.samples = append(res.samples, oname+": allocation of ast.BadNode inside a recovery handler -> ok")
@@ -386,6 +389,233 @@ func (g *Gen) callersHaveLevel(fn *ssa.Function, depth int) bool {
 		}
 		if !ok {
 			return false
+		}
+	}
+	return found
+}
+
+// sqlBoundary (C06, clause (b), printer side): a node whose range starts at a keyword or punctuation
+// field (`pos = F`, field F documented as `position of "T"`) must print text that starts with T, and a
+// node whose range ends at such a field (`end = F + len(T)`) must print text that ends with T - otherwise
+// replacing input[Pos:End] by SQL() cannot re-parse to the same tree. Decided structurally on the
+// return expression of (*T).SQL() in ast/sql.go: only where its first / last operand is a string
+// literal; other shapes produce no obligation.
+func (g *Gen) sqlBoundary() []*catOblig {
+	var obs []*catOblig
+	pkg := g.astPackage()
+	reTok := regexp.MustCompile("position of (?:the )?[\"`]([^\"`]+)[\"`]")
+	reQuoted := regexp.MustCompile("[\"`]([^\"`]+)[\"`]")
+	// field comments: struct name -> field name -> token text
+	tokOf := map[string]map[string]string{}
+	for _, f := range pkg.Syntax {
+		for _, d := range f.Decls {
+			gd, ok := d.(*ast.GenDecl)
+			if !ok {
+				continue
+			}
+			for _, sp := range gd.Specs {
+				ts, ok := sp.(*ast.TypeSpec)
+				if !ok {
+					continue
+				}
+				st, ok := ts.Type.(*ast.StructType)
+				if !ok {
+					continue
+				}
+				for _, fl := range st.Fields.List {
+					if fl.Comment == nil {
+						continue
+					}
+					txt := fl.Comment.Text()
+					if !reTok.MatchString(txt) {
+						continue
+					}
+					// `Lparen, Rparen token.Pos // position of "(" and ")"`: one quoted token per name, in order
+					toks := reQuoted.FindAllStringSubmatch(txt, -1)
+					if len(toks) != len(fl.Names) {
+						continue
+					}
+					for k, n := range fl.Names {
+						if tokOf[ts.Name.Name] == nil {
+							tokOf[ts.Name.Name] = map[string]string{}
+						}
+						tokOf[ts.Name.Name][n.Name] = toks[k][1]
+					}
+				}
+			}
+		}
+	}
+	// SQL() return expressions
+	rets := map[string]ast.Expr{}
+	poss := map[string]token.Position{}
+	for _, f := range pkg.Syntax {
+		for _, d := range f.Decls {
+			fd, ok := d.(*ast.FuncDecl)
+			if !ok || fd.Recv == nil || fd.Name.Name != "SQL" || fd.Body == nil || len(fd.Body.List) != 1 {
+				continue
+			}
+			rs, ok := fd.Body.List[0].(*ast.ReturnStmt)
+			if !ok || len(rs.Results) != 1 {
+				continue
+			}
+			if se, ok := fd.Recv.List[0].Type.(*ast.StarExpr); ok {
+				if id, ok := se.X.(*ast.Ident); ok {
+					rets[id.Name] = rs.Results[0]
+					poss[id.Name] = g.prog.Fset.Position(fd.Pos())
+				}
+			}
+		}
+	}
+	var edge func(e ast.Expr, first bool) (string, bool)
+	edge = func(e ast.Expr, first bool) (string, bool) {
+		switch x := e.(type) {
+		case *ast.ParenExpr:
+			return edge(x.X, first)
+		case *ast.BinaryExpr:
+			if x.Op != token.ADD {
+				return "", false
+			}
+			if first {
+				return edge(x.X, true)
+			}
+			return edge(x.Y, false)
+		case *ast.BasicLit:
+			if x.Kind == token.STRING {
+				if s, err := strconv.Unquote(x.Value); err == nil {
+					return s, true
+				}
+			}
+		case *ast.CallExpr:
+			// recv.Field.SQL(): the text of a child comes first / last although the range is bounded
+			// by a token of the node itself
+			if sel, ok := x.Fun.(*ast.SelectorExpr); ok && sel.Sel.Name == "SQL" && len(x.Args) == 0 {
+				if inner, ok := sel.X.(*ast.SelectorExpr); ok {
+					if _, ok := inner.X.(*ast.Ident); ok {
+						return "\x00child:" + inner.Sel.Name, true
+					}
+				}
+			}
+		}
+		return "", false
+	}
+	reField := regexp.MustCompile(`^[A-Za-z_][A-Za-z0-9_]*$`)
+	reEnd := regexp.MustCompile(`^([A-Za-z_][A-Za-z0-9_]*)\s*\+\s*(\d+)$`)
+	for _, si := range g.nodeStructs() {
+		ret := rets[si.name]
+		if ret == nil {
+			continue
+		}
+		if reField.MatchString(si.docPos) {
+			if tok := tokOf[si.name][si.docPos]; tok != "" {
+				if lit, ok := edge(ret, true); ok {
+					what := fmt.Sprintf("the literal %q", lit)
+					if strings.HasPrefix(lit, "\x00child:") {
+						what = "the text of the child " + strings.TrimPrefix(lit, "\x00child:")
+					}
+					ob := &catOblig{Name: fmt.Sprintf("ast.(*%s).SQL/starts-with-own-first-token", si.name), Tags: []string{"C06"}, Pos: poss[si.name],
+						Detail: fmt.Sprintf("pos = %s (position of %q): SQL() must start with %q; it starts with %s", si.docPos, tok, tok, what)}
+					if strings.HasPrefix(strings.ToUpper(strings.TrimLeft(lit, " ")), strings.ToUpper(tok)) {
+						ob.Result = "unsat"
+					} else {
+						ob.Failed = "the text printed for the node does not start with the token its range starts at"
+					}
+					obs = append(obs, ob)
+				}
+			}
+		}
+		if m := reEnd.FindStringSubmatch(si.docEnd); m != nil {
+			if tok := tokOf[si.name][m[1]]; tok != "" && fmt.Sprint(len(tok)) == m[2] {
+				if lit, ok := edge(ret, false); ok {
+					what := fmt.Sprintf("the literal %q", lit)
+					if strings.HasPrefix(lit, "\x00child:") {
+						what = "the text of the child " + strings.TrimPrefix(lit, "\x00child:")
+					}
+					ob := &catOblig{Name: fmt.Sprintf("ast.(*%s).SQL/ends-with-own-last-token", si.name), Tags: []string{"C06"}, Pos: poss[si.name],
+						Detail: fmt.Sprintf("end = %s (position of %q): SQL() must end with %q; it ends with %s", si.docEnd, tok, tok, what)}
+					if strings.HasSuffix(strings.ToUpper(strings.TrimRight(lit, " ")), strings.ToUpper(tok)) {
+						ob.Result = "unsat"
+					} else {
+						ob.Failed = "the text printed for the node does not end with the token its range ends at"
+					}
+					obs = append(obs, ob)
+				}
+			}
+		}
+	}
+	return obs
+}
+
+func init() {
+	auxEngines["C06"] = func(g *Gen, id, tier string) auxResult {
+		return runCatalog(g, id, g.sqlBoundary())
+	}
+	propertyAssumptions["C06"] = []string{
+		"clause (b) is covered only at the boundary: for nodes whose range starts / ends at a documented keyword or punctuation field and whose SQL() is a concatenation starting / ending with a string literal, that literal is that token (structural check of ast/sql.go); nothing is proved about the text in between",
+	}
+}
+
+// allCallersAre: fn (a helper without a contract, executed inside its callers) is called, statically,
+// only by functions that satisfy pred, or by contract-less helpers of which the same holds.
+func (g *Gen) allCallersAre(fn *ssa.Function, pred func(string) bool, depth int) bool {
+	if depth > 3 {
+		return false
+	}
+	found := false
+	for _, sp := range g.spkgs {
+		for _, m := range sp.Members {
+			var cands []*ssa.Function
+			switch x := m.(type) {
+			case *ssa.Function:
+				cands = append(cands, x)
+			case *ssa.Type:
+				for _, t := range []types.Type{x.Type(), types.NewPointer(x.Type())} {
+					ms := g.prog.MethodSets.MethodSet(t)
+					for i := 0; i < ms.Len(); i++ {
+						if f := g.prog.MethodValue(ms.At(i)); f != nil {
+							cands = append(cands, f)
+						}
+					}
+				}
+			}
+			for _, caller := range cands {
+				if caller == fn || len(caller.Blocks) == 0 || caller.Synthetic != "" {
+					continue
+				}
+				calls := false
+				var scan func(f *ssa.Function)
+				scan = func(f *ssa.Function) {
+					for _, b := range f.Blocks {
+						for _, in := range b.Instrs {
+							if ci, ok := in.(ssa.CallInstruction); ok && ci.Common().StaticCallee() == fn {
+								calls = true
+							}
+							for _, op := range in.Operands(nil) {
+								if op != nil && *op == ssa.Value(fn) {
+									if ci, ok := in.(ssa.CallInstruction); !ok || ci.Common().Value != ssa.Value(fn) {
+										calls = true // used as a value: treat as a use by this function
+									}
+								}
+							}
+						}
+					}
+					for _, af := range f.AnonFuncs {
+						scan(af)
+					}
+				}
+				scan(caller)
+				if !calls {
+					continue
+				}
+				found = true
+				cname := g.funcName(caller)
+				if pred(cname) {
+					continue
+				}
+				if g.cs.Funcs[cname] == nil && g.allCallersAre(caller, pred, depth+1) {
+					continue
+				}
+				return false
+			}
 		}
 	}
 	return found
